@@ -17,6 +17,7 @@ import (
 	"os"
 	"os/exec"
 	"path/filepath"
+	"regexp"
 	"runtime"
 	"runtime/debug"
 	"sort"
@@ -582,6 +583,21 @@ func c08Receiver(c *Ctx) int {
 			}
 		}
 	}
+	// decoded-edited-re-encoded init segments: sample entries without their configuration boxes
+	for _, name := range initEditNames {
+		vb := editInitBoxes(initB, name)
+		ab := editInitBoxes(ainit, name)
+		if vb != nil {
+			ch := "/upload/ie-" + name + "/V300/"
+			add("receiver-init-edit", "PUT", ch+"init.cmfv", vb, nil, name+":vinit")
+			add("receiver-init-edit", "PUT", ch+"1.cmfv", seg1, nil, name+":vseg1")
+		}
+		if ab != nil {
+			ch := "/upload/ie-" + name + "/A48/"
+			add("receiver-init-edit", "PUT", ch+"init.cmfa", ab, nil, name+":ainit")
+			add("receiver-init-edit", "PUT", ch+"1.cmfa", aseg1, nil, name+":aseg1")
+		}
+	}
 	// the same degenerate segments on a non-master (audio) track that arrives before the video track
 	for name, edit := range semEdits {
 		ch := "/upload/sa-" + name + "/"
@@ -616,76 +632,102 @@ func c08Receiver(c *Ctx) int {
 	_ = os.RemoveAll(dir)
 	_ = os.MkdirAll(dir, 0o755)
 	defer os.RemoveAll(dir)
-	cf := filepath.Join(dir, "cases.jsonl")
-	f, err := os.Create(cf)
-	must(err)
-	enc := json.NewEncoder(f)
-	for _, cs := range cases {
-		must(enc.Encode(cs))
-	}
-	f.Close()
-	stack := ""
-	report := func(cs recvCase, kind, what string) {
-		c.Violate(kind, what, []string{fmt.Sprintf("# %s %s mut=%s", cs.Method, cs.Path, cs.Label)}, map[string]any{"body_hex": hex.EncodeToString(cs.Body), "headers": cs.Hdr, "stack": stack})
-		stack = ""
-	}
-	from := 0
-	for from < len(cases) {
-		cmd := exec.Command(os.Args[0], "c08child", cf, strconv.Itoa(from), filepath.Join(dir, "storage"))
-		var se strings.Builder
-		cmd.Stderr = &se
-		out, _ := cmd.Output()
-		last := from - 1
-		begun := -1
-		for _, ln := range strings.Split(string(out), "\n") {
-			fs := strings.Fields(ln)
-			if len(fs) >= 2 && fs[0] == "B" {
-				begun, _ = strconv.Atoi(fs[1])
-			}
-			if len(fs) >= 5 && fs[0] == "R" {
-				i, _ := strconv.Atoi(fs[1])
-				code, _ := strconv.Atoi(fs[2])
-				last = i
-				cs := cases[i]
-				c.Count("req." + cs.H)
-				c.Count(fmt.Sprintf("status.%d", code/100*100))
-				switch {
-				case fs[4] == "1":
-					report(cs, "spin", cs.H+": request does not terminate within 4 s")
-				case fs[3] != "-":
-					report(cs, "panic", cs.H+": handler dies of a runtime error ("+fs[3]+")")
-				case cs.H == "receiver-alive" && code != 200:
-					report(cs, "receiver-stuck", fmt.Sprintf("after the malformed uploads a well-formed segment is answered %d", code))
+	runCases := func(cases []recvCase, file string) {
+		cf := filepath.Join(dir, file)
+		f, err := os.Create(cf)
+		must(err)
+		enc := json.NewEncoder(f)
+		for _, cs := range cases {
+			must(enc.Encode(cs))
+		}
+		f.Close()
+		stack := ""
+		report := func(cs recvCase, kind, what string) {
+			c.Violate(kind, what, []string{fmt.Sprintf("# %s %s mut=%s", cs.Method, cs.Path, cs.Label)}, map[string]any{"body_hex": hex.EncodeToString(cs.Body), "headers": cs.Hdr, "stack": stack})
+			stack = ""
+		}
+		from := 0
+		for from < len(cases) {
+			cmd := exec.Command(os.Args[0], "c08child", cf, strconv.Itoa(from), filepath.Join(dir, "storage"))
+			var se strings.Builder
+			cmd.Stderr = &se
+			out, _ := cmd.Output()
+			last := from - 1
+			begun := -1
+			for _, ln := range strings.Split(string(out), "\n") {
+				fs := strings.Fields(ln)
+				if len(fs) >= 2 && fs[0] == "B" {
+					begun, _ = strconv.Atoi(fs[1])
+				}
+				if len(fs) >= 5 && fs[0] == "R" {
+					i, _ := strconv.Atoi(fs[1])
+					code, _ := strconv.Atoi(fs[2])
+					last = i
+					cs := cases[i]
+					c.Count("req." + cs.H)
+					c.Count(fmt.Sprintf("status.%d", code/100*100))
+					switch {
+					case fs[4] == "1":
+						report(cs, "spin", cs.H+": request does not terminate within 4 s")
+					case fs[3] != "-":
+						report(cs, "panic", cs.H+": handler dies of a runtime error ("+fs[3]+")")
+					case cs.H == "receiver-alive" && code != 200:
+						report(cs, "receiver-stuck", fmt.Sprintf("after the malformed uploads a well-formed segment is answered %d", code))
+					}
 				}
 			}
-		}
-		if last == len(cases)-1 {
-			break
-		}
-		// the child died: the case it had begun is the one that killed the process
-		crash := last + 1
-		if begun > last {
-			crash = begun
-		}
-		why := "process exit"
-		for _, ln := range strings.Split(se.String(), "\n") {
-			if strings.HasPrefix(ln, "fatal error:") || strings.HasPrefix(ln, "panic:") {
-				why = strings.TrimSpace(ln)
+			if last == len(cases)-1 {
 				break
 			}
-		}
-		var fr []string
-		for _, ln := range strings.Split(se.String(), "\n") {
-			if strings.Contains(ln, "/repo/") && len(fr) < 6 {
-				fr = append(fr, strings.TrimSpace(ln))
+			// the child died: the case it had begun is the one that killed the process
+			crash := last + 1
+			if begun > last {
+				crash = begun
 			}
+			why := "process exit"
+			for _, ln := range strings.Split(se.String(), "\n") {
+				if strings.HasPrefix(ln, "fatal error:") || strings.HasPrefix(ln, "panic:") {
+					why = strings.TrimSpace(ln)
+					break
+				}
+			}
+			var fr []string
+			for _, ln := range strings.Split(se.String(), "\n") {
+				if strings.Contains(ln, "/repo/") && len(fr) < 6 {
+					fr = append(fr, strings.TrimSpace(ln))
+				}
+			}
+			stack = strings.Join(fr, " <- ")
+			report(cases[crash], "fatal", cases[crash].H+": the whole receiver process dies ("+why+")")
+			from = crash + 1
 		}
-		stack = strings.Join(fr, " <- ")
-		report(cases[crash], "fatal", cases[crash].H+": the whole receiver process dies ("+why+")")
-		from = crash + 1
 	}
+	runCases(cases, "cases.jsonl")
+	// restart: a new receiver process on the storage the uploads above have left (stored init segments are decoded
+	// again when a track is first touched), one well-formed segment per track that was ever addressed
+	seen := map[string]bool{}
+	var again []recvCase
+	for _, cs := range cases {
+		m := trackPathRe.FindStringSubmatch(cs.Path)
+		if m == nil || seen[m[1]] || cs.Method != "PUT" {
+			continue
+		}
+		seen[m[1]] = true
+		if !c.Thorough() && strings.HasPrefix(m[1], "/upload/mi") && len(seen)%5 != 0 {
+			continue // quick tier: a fifth of the byte-mutated inits (the edited ones all run)
+		}
+		body, ext := seg1, ".cmfv"
+		if strings.Contains(m[1], "A48") {
+			body, ext = aseg1, ".cmfa"
+		}
+		again = append(again, recvCase{"receiver-restart", "PUT", m[1] + "/7" + ext, body, nil, "restart-after:" + cs.Label})
+	}
+	runCases(again, "cases2.jsonl")
+	cases = append(cases, again...)
 	return len(cases)
 }
+
+var trackPathRe = regexp.MustCompile(`^(/upload/[-A-Za-z0-9_]+/[-A-Za-z0-9_]+)/[^/]+\.cmf[va]$`)
 
 // c08Limited: a server with the request limiter switched on (quota, one-second interval, counter log file): requests
 // within the first interval, beyond the quota, and after the interval has ended (the counters are written to the log and
@@ -974,6 +1016,71 @@ func editSeg(src []byte, k uint32, edit func(k uint32, f *mp4.Fragment)) (out []
 }
 
 // editInit returns a changed init segment for the edits that concern it.
+var initEditNames = []string{"noavcc", "nosps", "nopps", "noesds", "nostsdentry", "nomdhd-lang", "notrex"}
+
+// editInitBoxes removes a configuration box (or its content) from a decoded init segment and re-encodes it.
+func editInitBoxes(src []byte, name string) (out []byte) {
+	defer func() {
+		if r := recover(); r != nil {
+			out = nil
+		}
+	}()
+	f, err := mp4.DecodeFile(bytes.NewReader(src))
+	if err != nil || f.Init == nil {
+		return nil
+	}
+	stsd := f.Init.Moov.Trak.Mdia.Minf.Stbl.Stsd
+	dropChild := func(children []mp4.Box, typ string) []mp4.Box {
+		var o []mp4.Box
+		for _, c := range children {
+			if c.Type() != typ {
+				o = append(o, c)
+			}
+		}
+		return o
+	}
+	switch name {
+	case "noavcc":
+		if stsd.AvcX == nil {
+			return nil
+		}
+		stsd.AvcX.AvcC = nil
+		stsd.AvcX.Children = dropChild(stsd.AvcX.Children, "avcC")
+	case "nosps":
+		if stsd.AvcX == nil || stsd.AvcX.AvcC == nil {
+			return nil
+		}
+		stsd.AvcX.AvcC.SPSnalus = nil
+	case "nopps":
+		if stsd.AvcX == nil || stsd.AvcX.AvcC == nil {
+			return nil
+		}
+		stsd.AvcX.AvcC.PPSnalus = nil
+	case "noesds":
+		if stsd.Mp4a == nil {
+			return nil
+		}
+		stsd.Mp4a.Esds = nil
+		stsd.Mp4a.Children = dropChild(stsd.Mp4a.Children, "esds")
+	case "nostsdentry":
+		stsd.Children = nil
+		stsd.AvcX, stsd.Mp4a = nil, nil
+		stsd.SampleCount = 0
+	case "nomdhd-lang":
+		f.Init.Moov.Trak.Mdia.Mdhd.Language = 0
+	case "notrex":
+		f.Init.Moov.Mvex.Trex = nil
+		f.Init.Moov.Mvex.Children = dropChild(f.Init.Moov.Mvex.Children, "trex")
+	default:
+		return nil
+	}
+	var buf bytes.Buffer
+	if err := f.Init.Encode(&buf); err != nil {
+		return nil
+	}
+	return buf.Bytes()
+}
+
 func editInit(src []byte, name string) (out []byte) {
 	if name != "ts0" {
 		return nil
